@@ -64,13 +64,13 @@ def liar_slice(thorough):
 
 def big_hgroups(thorough):
     """hasher groups on caches of 20 ... 513 entries (hash tables of 32 ... 1024 buckets: growth, tombstones, full groups)"""
-    n = 600 if thorough else 100      # members: five per group
+    n = 200 if thorough else 100      # members: five per group (the traces of these caches are large: ~5 MB per member)
     return [dict(name=w + "-big-h", slice=w, args=["--n", n, "--len", 4000, "--big", 1, "--hgroup", 1], shards=8 if thorough else 4)
             for w in ("lru", "slru", "twoq", "arc")]
 
 
 def comp_zst(thorough):
-    """SegmentedCache / TwoQueueCache / AdaptiveCache over (TKey, ()): a zero-sized value type, replayed in the same models"""
+    """SegmentedCache / TwoQueueCache / AdaptiveCache / WTinyLFUCache over (TKey, ()): a zero-sized value type, replayed in the same models"""
     return dict(name="comp-zst", slice="compzst", args=["--n", 20000 if thorough else 900, "--len", 400 if thorough else 150], shards=8 if thorough else 4)
 
 
@@ -84,9 +84,10 @@ ALL_CORPUS = ["lru", "slru", "twoq", "arc", "wtiny"]
 
 PROPS = {
     "C01": dict(
-        props_files=["C01"],
+        props_files=["C01", "C01F"],
         theorems={"C01": ["C01_lru", "C01_slru", "C01_twoq", "C01_arc", "C01_wtiny", "C01_wtiny_init",
-                          "C01_lru_step", "C01_slru_step", "C01_twoq_step", "C01_arc_step", "C01_wtiny_step"]},
+                          "C01_lru_step", "C01_slru_step", "C01_twoq_step", "C01_arc_step", "C01_wtiny_step"],
+                  "C01F": ["C01_bound_survives_panics", "C01_bound_reachable_with_panics"]},
         slices=dict(quick=lru_slices(1500, 150, 2, 100000) + comp_slices(1500, 150, 800) +
                           [dict(name="wtiny-nostd", slice="wtiny", args=["--n", 400, "--len", 150], shards=2, features="nostd"),
                            dict(name="twoq-nostd", slice="twoq", args=["--n", 400, "--len", 150], shards=2, features="nostd"),
@@ -306,12 +307,15 @@ PROPS = {
                      "fill_sample: the hash map's iteration order is taken from the real output and validated"],
     ),
     "C07": dict(
-        level_text="Coq theorems over the SegmentedCache model, for every reachable state (C01 invariant by induction over histories) and both capacities >= 1: a new key enters probationary and only probationary's least-recent entry can be evicted for it; get/get_mut/put on a probationary entry makes it the most-recent protected entry, and when protected is full its least-recent entry becomes the most-recent probationary entry with no key leaving the cache; a protected hit only moves the entry to the front of protected; put_protected leaves the key at the front of protected and in no other segment. Exact list equations, tied to /repo by differential execution on both segment lists.",
-        props_files=["C07"],
+        level_text="Coq theorems over the SegmentedCache model, for every reachable state (C01 invariant by induction over histories) and both capacities >= 1: a new key enters probationary and only probationary's least-recent entry can be evicted for it; get/get_mut/put on a probationary entry makes it the most-recent protected entry, and when protected is full its least-recent entry becomes the most-recent probationary entry with no key leaving the cache; a protected hit only moves the entry to the front of protected; put_protected leaves the key at the front of protected and in no other segment. Exact list equations, tied to /repo by differential execution on both segment lists. The decisions do not look at the values (props/C07Z.v: the key projection of the model is a simulation of the segmented cache written over keys alone), so SegmentedCache over a zero-sized value type is replayed in the same model.",
+        props_files=["C07", "C07Z"],
         theorems={"C07": ["C07_reachable", "C07_new_key_enters_probationary", "C07_probationary_hit_promotes_get",
                           "C07_probationary_hit_promotes_put", "C07_promotion_never_evicts",
                           "C07_protected_hit_refreshes_get", "C07_protected_hit_refreshes_put",
-                          "C07_miss_changes_nothing", "C07_put_protected"]},
+                          "C07_miss_changes_nothing", "C07_put_protected"],
+                  "C07Z": ["C07_put_is_value_blind", "C07_get_is_value_blind", "C07_promotion_is_value_blind",
+                           "C07_remove_is_value_blind", "C07_put_protected_is_value_blind", "C07_lookups_are_value_blind",
+                           "C07_history_is_value_blind"]},
         slices=dict(quick=[dict(name="slru", slice="slru", args=["--n", 6000, "--len", 150], shards=12), comp_bfs(False), comp_zst(False)] + comp_big(False, ("slru",)),
                     thorough=[dict(name="slru", slice="slru", args=["--n", 120000, "--len", 400], shards=16), comp_bfs(True), comp_zst(True)] + comp_big(True, ("slru",))),
         corpus=["slru"],
@@ -320,11 +324,13 @@ PROPS = {
                      "(the method's documented force semantics); 'only the least-recent probationary entry is ever evicted' is read as about put"],
     ),
     "C08": dict(
-        level_text="Coq theorems over the TwoQueueCache model, for every reachable state (C01 invariant by induction over histories), every size >= 1, every recent quota (0 included) and ghost bound >= 1: a new key enters the recent queue; a second access by put/get/get_mut moves it to the front of the frequent queue; get never consults the ghosts; on a full cache the victim is recent's LRU when recent is over its quota (at quota for a brand-new key) and otherwise frequent's LRU, falling back to the non-empty queue, and it becomes the most-recent ghost; the ghost list drops and reports its own LRU on overflow (including the very key being revived); a put on a ghost key revives it directly into the frequent queue. Exact list equations, tied to /repo by differential execution over all three lists and boundary ratios.",
-        props_files=["C08"],
+        level_text="Coq theorems over the TwoQueueCache model, for every reachable state (C01 invariant by induction over histories), every size >= 1, every recent quota (0 included) and ghost bound >= 1: a new key enters the recent queue; a second access by put/get/get_mut moves it to the front of the frequent queue; get never consults the ghosts; on a full cache the victim is recent's LRU when recent is over its quota (at quota for a brand-new key) and otherwise frequent's LRU, falling back to the non-empty queue, and it becomes the most-recent ghost; the ghost list drops and reports its own LRU on overflow (including the very key being revived); a put on a ghost key revives it directly into the frequent queue. Exact list equations, tied to /repo by differential execution over all three lists and boundary ratios. The decisions do not look at the values (props/C08Z.v: key projection = 2Q over keys alone), so TwoQueueCache over a zero-sized value type is replayed in the same model.",
+        props_files=["C08", "C08Z"],
         theorems={"C08": ["C08_reachable", "C08_first_access_recent", "C08_second_access_frequent_put",
                           "C08_second_access_frequent_get", "C08_frequent_hit_put", "C08_frequent_hit_get",
-                          "C08_get_miss", "C08_new_key_full", "C08_ghost_revival_room", "C08_ghost_revival_full", "C08_quota"]},
+                          "C08_get_miss", "C08_new_key_full", "C08_ghost_revival_room", "C08_ghost_revival_full", "C08_quota"],
+                  "C08Z": ["C08_put_is_value_blind", "C08_get_is_value_blind", "C08_victim_is_value_blind",
+                           "C08_remove_is_value_blind", "C08_lookups_are_value_blind"]},
         axioms_allowed=FLOCQ_AXIOMS,
         slices=dict(quick=[dict(name="twoq", slice="twoq", args=["--n", 6000, "--len", 150], shards=12),
                            dict(name="ctor", slice="ctor", args=["--n", 60, "--len", 150], shards=2),
@@ -341,11 +347,13 @@ PROPS = {
         assumptions=["quota and ghost capacity are read from the real cache through the verif-hooks accessor and compared with floor(size*ratio) computed by the harness"],
     ),
     "C09": dict(
-        level_text="Coq theorems over the AdaptiveCache model, for every reachable state (C01 invariant, which contains 0 <= p <= size, by induction over histories) and every size >= 1: a second access moves a recent entry to the front of the frequent list; a put hitting the recent ghost list sets p to min(size, p + max(1, |B2|/|B1|)), one hitting the frequent ghost list to p - max(1, |B1|/|B2|) floored at 0, either revives the key into the frequent list; replace takes its victim from the recent list iff it is non-empty and longer than p (or equal to p on a frequent-ghost hit), else from the frequent list, falling back to the non-empty one, and moves exactly that entry to the front of the matching ghost list; a full cache always makes room before admitting; a new key enters the recent list and is reported Put. Exact list equations, tied to /repo by differential execution over all four lists and p.",
-        props_files=["C09"],
+        level_text="Coq theorems over the AdaptiveCache model, for every reachable state (C01 invariant, which contains 0 <= p <= size, by induction over histories) and every size >= 1: a second access moves a recent entry to the front of the frequent list; a put hitting the recent ghost list sets p to min(size, p + max(1, |B2|/|B1|)), one hitting the frequent ghost list to p - max(1, |B1|/|B2|) floored at 0, either revives the key into the frequent list; replace takes its victim from the recent list iff it is non-empty and longer than p (or equal to p on a frequent-ghost hit), else from the frequent list, falling back to the non-empty one, and moves exactly that entry to the front of the matching ghost list; a full cache always makes room before admitting; a new key enters the recent list and is reported Put. Exact list equations, tied to /repo by differential execution over all four lists and p. The decisions do not look at the values (props/C09Z.v: key projection = ARC over keys alone, incl. the movement of p and the trimming of the ghost lists), so AdaptiveCache over a zero-sized value type is replayed in the same model.",
+        props_files=["C09", "C09Z"],
         theorems={"C09": ["C09_reachable", "C09_replace", "C09_promotion_put", "C09_promotion_get",
                           "C09_frequent_hit_put", "C09_frequent_hit_get", "C09_get_miss", "C09_recent_ghost_hit",
-                          "C09_frequent_ghost_hit", "C09_new_key"]},
+                          "C09_frequent_ghost_hit", "C09_new_key"],
+                  "C09Z": ["C09_put_is_value_blind", "C09_replace_is_value_blind", "C09_get_is_value_blind",
+                           "C09_remove_is_value_blind", "C09_lookups_are_value_blind"]},
         slices=dict(quick=[dict(name="arc", slice="arc", args=["--n", 6000, "--len", 150], shards=12), comp_bfs(False), comp_zst(False)] + comp_big(False, ("arc",)),
                     thorough=[dict(name="arc", slice="arc", args=["--n", 120000, "--len", 400], shards=16), comp_bfs(True), comp_zst(True)] + comp_big(True, ("arc",))),
         corpus=["arc"],
@@ -354,16 +362,18 @@ PROPS = {
     ),
     "C10": dict(
         level_text="Coq theorems over the WTinyLFUCache model (window LRU, bit-level TinyLFU, segmented main cache), for every reachable state and every estimator state (hence every sketch seed and KeyHasher): a new key enters the window and the window's LRU becomes the candidate; the candidate is admitted without consulting the estimator while the main cache has room; when it is full the candidate is handed back as Evicted iff estimate(candidate) < estimate(least-recent probationary entry), otherwise it replaces that entry which is handed back; every get/get_mut, hit or miss, performs exactly try_reset + increment of the key's hash; purge clears the estimator; a put on a window key moves it to the front of protected, demoting protected's LRU into the window when full. Tied to /repo by differential execution comparing all three lists and the full estimator state after every call.",
-        props_files=["C10"],
+        props_files=["C10", "C10Z"],
         theorems={"C10": ["C10_reachable", "C10_estimate_total", "C10_new_key_enters_window", "C10_admission_free",
                           "C10_admission_filter", "C10_get_records_access", "C10_purge_clears_estimator",
-                          "C10_window_hit_moves_to_protected", "C10_main_hit_put"]},
+                          "C10_window_hit_moves_to_protected", "C10_main_hit_put"],
+                  "C10Z": ["C10_put_is_value_blind", "C10_admission_is_value_blind", "C10_get_is_value_blind",
+                           "C10_remove_is_value_blind"]},
         slices=dict(quick=[dict(name="wtiny", slice="wtiny", args=["--n", 3000, "--len", 150], shards=12),
                            dict(name="wtiny-nostd", slice="wtiny", args=["--n", 600, "--len", 150], shards=4, features="nostd"),
-                           dict(name="wtiny-hot", slice="wtiny", args=["--n", 200, "--len", 1500, "--hot", 1], shards=4)] + comp_big(False, ("wtiny",)),
+                           dict(name="wtiny-hot", slice="wtiny", args=["--n", 200, "--len", 1500, "--hot", 1], shards=4), comp_zst(False)] + comp_big(False, ("wtiny",)),
                     thorough=[dict(name="wtiny", slice="wtiny", args=["--n", 60000, "--len", 400], shards=16),
                               dict(name="wtiny-nostd", slice="wtiny", args=["--n", 15000, "--len", 400], shards=16, features="nostd"),
-                              dict(name="wtiny-hot", slice="wtiny", args=["--n", 4000, "--len", 2500, "--hot", 1], shards=16)] + comp_big(True, ("wtiny",))),
+                              dict(name="wtiny-hot", slice="wtiny", args=["--n", 4000, "--len", 2500, "--hot", 1], shards=16), comp_zst(True)] + comp_big(True, ("wtiny",))),
         corpus=["wtiny"],
         monitors=["mon_c10", "mon_c01"],
         assumptions=["sketch seeds and Bloom geometry are read from the real estimator through the verif-hooks accessor and validated (bloom_geometry_ok)",
@@ -437,9 +447,12 @@ PROPS = {
         assumptions=["the recording callback of the harness sees exactly the (key, value) pairs the library passes to on_evict"],
     ),
     "C06": dict(
-        props_files=["C06"],
+        props_files=["C06", "C06Z"],
         theorems={"C06": ["C06_recency_order", "C06_eviction_takes_lru", "C06_peek_lru", "C06_remove_lru",
-                          "C06_get_lru", "C06_mru", "C06_resize", "C06_reads_keep_order", "C06_step"]},
+                          "C06_get_lru", "C06_mru", "C06_resize", "C06_reads_keep_order", "C06_step"],
+                  "C06Z": ["C06_put_is_value_blind", "C06_get_is_value_blind", "C06_peek_is_value_blind",
+                           "C06_removals_are_value_blind", "C06_ends_are_value_blind", "C06_same_keys_same_order",
+                           "C06_history_is_value_blind", "C06_same_calls_same_order"]},
         slices=dict(quick=lru_slices(3000, 150, 2, 100000) +
                           [dict(name="lruhuge", slice="lruhuge", args=["--n", 600, "--len", 120], shards=2, model=False)],
                     thorough=lru_slices(60000, 400, 3, 1000000) +
